@@ -13,6 +13,7 @@ import (
 	"sort"
 	"sync"
 	"sync/atomic"
+	"time"
 
 	"github.com/dapr/kit/concurrency/cmap"
 	"github.com/dapr/kit/concurrency/slice"
@@ -28,12 +29,14 @@ type opSpec struct {
 	N     int    `json:"n"`
 	HSel  int    `json:"hsel"` // which of the goroutine's handles an AtomicValue operation uses
 	Items []int  `json:"items"`
+	Stage bool   `json:"stage"` // Range / ForEach: use the callback as a scheduling point (see stager)
 }
 
 type program struct {
-	Name  string     `json:"name"`
-	Setup []opSpec   `json:"setup"` // executed by the main goroutine first; handles it obtains are shared with everyone
-	Procs [][]opSpec `json:"procs"`
+	Name   string     `json:"name"`
+	Staged bool       `json:"staged"` // goroutine 0 observes with a staged Range/ForEach; the others start from inside its callback
+	Setup  []opSpec   `json:"setup"`  // executed by the main goroutine first; handles it obtains are shared with everyone
+	Procs  [][]opSpec `json:"procs"`
 }
 
 type handle = *cmap.AtomicValue[int]
@@ -149,6 +152,36 @@ type worker struct {
 	yi   int
 	bar  *barrier // nil: free running
 	step int
+	st   *stager // staged programs only
+}
+
+// stager turns the callback of Range / ForEach into a scheduling point: when the
+// callback has been handed its first entry it lets the writer goroutines go and
+// gives them a short, bounded chance to run (it never waits for them: with an
+// atomic Range they are blocked on the write lock until Range returns, and the
+// history is simply "Range, then the writes").  If Range loaded its entries one
+// by one, the writes land between the loads and the recorded view is one that
+// no instant ever had.  The writers are recorded with call/ret like everybody.
+type stager struct {
+	ch    chan struct{}
+	once  sync.Once
+	fired bool
+	done  atomic.Int32 // writers that have finished
+	need  int32
+}
+
+func (s *stager) open() { s.once.Do(func() { close(s.ch) }) }
+
+func (s *stager) fire() {
+	if s.fired {
+		return
+	}
+	s.fired = true
+	s.open()
+	deadline := time.Now().Add(300 * time.Microsecond)
+	for s.done.Load() < s.need && time.Now().Before(deadline) {
+		runtime.Gosched()
+	}
 }
 
 // barrier lines the goroutines up between the call record and the call itself:
@@ -238,6 +271,9 @@ func (w *worker) exec(o opSpec) {
 		got := []kv{}
 		w.o.m.Range(func(k string, v int) bool {
 			got = append(got, kv{k, v})
+			if o.Stage {
+				w.st.fire()
+			}
 			return len(got) < o.N
 		})
 		res = got
@@ -259,7 +295,12 @@ func (w *worker) exec(o opSpec) {
 		w.o.a.Clear()
 	case "atomic.foreach":
 		got := []kh{}
-		w.o.a.ForEach(func(k string, p handle) { got = append(got, kh{k, p}) })
+		w.o.a.ForEach(func(k string, p handle) {
+			got = append(got, kh{k, p})
+			if o.Stage {
+				w.st.fire()
+			}
+		})
 		for _, e := range got {
 			w.hs = append(w.hs, e.p)
 		}
@@ -278,6 +319,9 @@ func (w *worker) exec(o opSpec) {
 		res = append([]int{}, w.o.s.Slice()...)
 	default:
 		panic("unknown op " + o.Obj + "." + o.Op)
+	}
+	if o.Stage {
+		w.st.open() // the callback was never called: let the writers go now
 	}
 	w.yield()
 	w.r.ret(id, res)
@@ -298,9 +342,14 @@ func runProgram(p program, rng *rand.Rand, lockstep bool) ([]tv.M, bool) {
 	if lockstep {
 		bar = newBarrier(p.Procs)
 	}
+	var st *stager
+	if p.Staged {
+		st = &stager{ch: make(chan struct{}), need: int32(len(p.Procs) - 1)}
+	}
 	start := make(chan struct{})
-	for _, ops := range p.Procs {
-		w := &worker{o: o, r: r, hs: append([]handle{}, main.hs...), bar: bar}
+	for pi, ops := range p.Procs {
+		pi := pi
+		w := &worker{o: o, r: r, hs: append([]handle{}, main.hs...), bar: bar, st: st}
 		for i := 0; i < 3*len(ops)+1; i++ {
 			y := 0
 			if rng.Intn(3) == 0 {
@@ -314,6 +363,10 @@ func runProgram(p program, rng *rand.Rand, lockstep bool) ([]tv.M, bool) {
 			defer wg.Done()
 			ready.Done()
 			<-start
+			if st != nil && pi > 0 {
+				<-st.ch
+				defer st.done.Add(1)
+			}
 			for _, op := range ops {
 				w.exec(op)
 			}
@@ -507,6 +560,56 @@ func duelProgram(rng *rand.Rand, which int) program {
 				}
 			})}
 	}
+}
+
+// stagedProgram: every key holds generation 1; goroutine 0 takes a Range (or
+// ForEach) whose callback lets a writer go that moves every key to generation 2
+// (or deletes it, or replaces its counter) in key order or in reverse key order.
+// With 2-3 keys every mixed view is distinguishable, and for either writer order
+// most starting points of the iteration give a view no instant ever had.
+func stagedProgram(rng *rand.Rand, which int) program {
+	nk := 2 + which%2
+	keys := append([]string{}, allKeys[:nk]...)
+	order := append([]string{}, keys...)
+	dir := "forward"
+	if (which/2)%2 == 1 {
+		dir = "reverse"
+		for i, j := 0, len(order)-1; i < j; i, j = i+1, j-1 {
+			order[i], order[j] = order[j], order[i]
+		}
+	}
+	p := program{Staged: true, Setup: []opSpec{}}
+	var writer []opSpec
+	switch (which / 4) % 3 {
+	case 0:
+		p.Name = "staged-range-vs-store-" + dir
+		for _, k := range keys {
+			p.Setup = append(p.Setup, opSpec{Obj: "map", Op: "store", K: k, V: 1})
+		}
+		for _, k := range order {
+			writer = append(writer, opSpec{Obj: "map", Op: "store", K: k, V: 2})
+		}
+		p.Procs = [][]opSpec{{{Obj: "map", Op: "range", N: 99, Stage: true}}, writer}
+	case 1:
+		p.Name = "staged-range-vs-delete-" + dir
+		for _, k := range keys {
+			p.Setup = append(p.Setup, opSpec{Obj: "map", Op: "store", K: k, V: 1})
+		}
+		for _, k := range order {
+			writer = append(writer, opSpec{Obj: "map", Op: "delete", K: k})
+		}
+		p.Procs = [][]opSpec{{{Obj: "map", Op: "range", N: 99, Stage: true}}, writer}
+	default:
+		p.Name = "staged-foreach-vs-recreate-" + dir
+		for i, k := range keys {
+			p.Setup = append(p.Setup, opSpec{Obj: "atomic", Op: "getorcreate", K: k, V: 10 * (i + 1)})
+		}
+		for i, k := range order {
+			writer = append(writer, opSpec{Obj: "atomic", Op: "adelete", K: k}, opSpec{Obj: "atomic", Op: "getorcreate", K: k, V: 100 * (i + 1)})
+		}
+		p.Procs = [][]opSpec{{{Obj: "atomic", Op: "foreach", Stage: true}}, writer}
+	}
+	return p
 }
 
 func histKey(evs []tv.M) string {
